@@ -821,6 +821,12 @@ func sanitize(sc []action) []action {
 }
 
 func run(e *hk.Env) error {
+	// 64 requests in flight need goroutines, not cores: on a busy 16-core machine the default
+	// GOMAXPROCS makes the scheduler spin (3x wall, 7x sys); 6 Ps still give real parallelism.
+	if os.Getenv("GOMAXPROCS") == "" && runtime.NumCPU() > 6 {
+		runtime.GOMAXPROCS(6)
+	}
+	e.Stats["gomaxprocs"] = runtime.GOMAXPROCS(0)
 	chunkDir = filepath.Join(e.Out, "chunks")
 	os.MkdirAll(chunkDir, 0o755)
 	defer os.RemoveAll(chunkDir)
@@ -918,11 +924,16 @@ func run(e *hk.Env) error {
 			flush(key, false)
 		}
 	}
-	// 1. every script, three handlers, Info threshold, both modes
-	for _, sc := range scripts {
+	// 1. every script, three handlers, Info threshold; both modes on one handler (rotating; thorough: on
+	// all three), one mode on the other two
+	for i, sc := range scripts {
 		for hkind := 0; hkind < 3; hkind++ {
-			add(hkind, 4, 0, sc)
-			add(hkind, 4, 1, sc)
+			if hkind == i%3 || e.Thorough() {
+				add(hkind, 4, 0, sc)
+				add(hkind, 4, 1, sc)
+			} else {
+				add(hkind, 4, (i+hkind)%2, sc)
+			}
 		}
 	}
 	// 2. the other thresholds: scripts of at most two actions (+ panic)
@@ -946,7 +957,7 @@ func run(e *hk.Env) error {
 		add(r.Intn(3), thresholds[r.Intn(5)], r.Intn(2), sc)
 	}
 	// 4. random longer scripts, any code 200..599, repeated WriteHeader allowed
-	nRandom := 3000
+	nRandom := 2000
 	if e.Thorough() {
 		nRandom = 150000
 	}
